@@ -37,13 +37,15 @@ DIAGS = [
     (r"rest client interface not exists", "DgRestNotExists"),
     (r"file must be a go file", "DgFileNotGo"),
     (r"file not exists", "DgFileNotExists"),
+    (r"more than one type is written to", "DgSameFile"),
 ]
 
-FINDING_OF_CLASS = {1: "K_enum_missing_silent", 2: "K_star_no_generate_line", 3: "K_star_sep_file",
-                    4: "K_local_type_listed", 5: "K_lower_collision"}
+FINDING_OF_CLASS = {2: "K_star_no_generate_line", 3: "K_star_sep_file"}
 
 
 def classify_diag(line):
+    if "enum type not exists or has no constants" in line:
+        return "DgEnumNone"
     if "src type not exists" in line:
         return "DgSrcNotExists"
     if "dest type not exists" in line:
@@ -522,7 +524,16 @@ def handlers(run, shoot, gosig):
             return "correct"
         return "other: %s" % res
 
-    return {"K_star_no_generate_line": h_star_no_generate_line, "K_enum_missing_silent": h_enum_missing_silent,
+    def h_filename_case_clash(e):
+        w = e["witness"]
+        o = witness_run(run, shoot, gosig, "w_clash", w["files"], w["args_a"][0], w["args_a"][1:])
+        if o["rc"] == 0 and o["created"] == ["p/" + w["file"]]:
+            return "buggy"
+        if clean_failure(o):
+            return "correct"
+        return "other: rc=%s created=%s stderr=%s" % (o["rc"], o["created"], o["err"][-300:])
+
+    return {"K_filename_case_clash": h_filename_case_clash, "K_star_no_generate_line": h_star_no_generate_line, "K_enum_missing_silent": h_enum_missing_silent,
             "K_star_sep_file": h_star_sep_file, "K_local_type_listed": h_local_type_listed,
             "K_lower_collision": h_lower_collision, "K_getgofile_ambiguous": h_getgofile_ambiguous,
             "K_enum_star_kinds": h_enum_star_kinds, "K_rest_missing_type": h_rest_missing_type}
@@ -648,9 +659,8 @@ def main(run):
         "rendered_skeletons_compiled_with_go_build": nbuilt,
         "files_written_by_shoot": written,
         "cases_by_subcommand": by_cmd, "cases_by_mode": by_tag,
-        "cases_by_input_class": {"legend": "0 inside the theorems' guard; 1 K_enum_missing_silent; 2 K_star_no_generate_line; "
-                                 "3 K_star_sep_file; 4 K_local_type_listed; 5 K_lower_collision; 8 command line rejected "
-                                 "by flag parsing; 9 outside the grammar", **by_class},
+        "cases_by_input_class": {"legend": "0 inside the theorems' guard; 2 K_star_no_generate_line; 3 K_star_sep_file; "
+                                 "8 command line rejected by flag parsing; 9 outside the grammar", **by_class},
         "exit_codes": exits, "diagnostic_classes": diags,
         "declaration_kinds_in_distinct_cases": kinds,
         "dir_argument_cases": sum(1 for k in cases if k.from_parent),
@@ -683,8 +693,9 @@ def main(run):
         "same-named struct in the destination package (-file/-type=* additionally require an exported name)",
         "all-in-one output of -type=* is named after the file holding the //go:generate line of the command",
         "open findings (classes kept out of the guard of the theorems, compared against the literal model, "
-        "witness replayed on every run): K_star_no_generate_line, K_enum_missing_silent, K_star_sep_file, "
-        "K_local_type_listed, K_lower_collision",
+        "witness replayed on every run): K_star_no_generate_line, K_star_sep_file; repaired in /repo and now inside "
+        "the theorems and the comparison stream: K_enum_missing_silent, K_local_type_listed, K_lower_collision "
+        "(= K_filename_case_clash)",
     ])
 
 
